@@ -102,6 +102,9 @@ pub enum Thr {
     Dead,
     /// files smaller than 27 bytes: an 18-byte tombstone-only file but not a 27-byte one-value file
     Size27,
+    /// files smaller than 100 bytes: a newer small file is selected while an OLDER file that holds a
+    /// 9000-byte value (and an overwritten value of another key) is not
+    Size100,
     /// files whose fragmentation exceeds 0.4
     Frag,
     /// nothing is ever selected
@@ -113,6 +116,7 @@ impl Thr {
             Thr::All => "ALL",
             Thr::Dead => "DEAD",
             Thr::Size27 => "SIZE27",
+            Thr::Size100 => "SIZE100",
             Thr::Frag => "FRAG",
             Thr::None => "NONE",
         }
@@ -122,6 +126,7 @@ impl Thr {
             "ALL" => Thr::All,
             "DEAD" => Thr::Dead,
             "SIZE27" => Thr::Size27,
+            "SIZE100" => Thr::Size100,
             "FRAG" => Thr::Frag,
             _ => Thr::None,
         }
@@ -161,6 +166,7 @@ impl Cfg {
             Thr::All => c.merge_threshold_small_file(u64::MAX).merge_threshold_dead_bytes(u64::MAX).merge_threshold_fragmentation(1.0),
             Thr::Dead => c.merge_threshold_small_file(0).merge_threshold_dead_bytes(0).merge_threshold_fragmentation(1.0),
             Thr::Size27 => c.merge_threshold_small_file(27).merge_threshold_dead_bytes(u64::MAX).merge_threshold_fragmentation(1.0),
+            Thr::Size100 => c.merge_threshold_small_file(100).merge_threshold_dead_bytes(u64::MAX).merge_threshold_fragmentation(1.0),
             Thr::Frag => c.merge_threshold_small_file(0).merge_threshold_dead_bytes(u64::MAX).merge_threshold_fragmentation(0.4),
             Thr::None => c.merge_threshold_small_file(0).merge_threshold_dead_bytes(u64::MAX).merge_threshold_fragmentation(1.0),
         };
@@ -199,6 +205,8 @@ pub struct Sweep {
     pub oracles: Oracles,
     pub keys: Vec<u8>,
     pub trailing_reopens: usize,
+    /// operations executed (unchecked) before the word: start from a non-initial state
+    pub preload: Vec<Op>,
 }
 
 impl Sweep {
@@ -355,11 +363,12 @@ pub struct WordCase<'a> {
     pub oracles: Oracles,
     pub keys: &'a [u8],
     pub trailing_reopens: usize,
+    pub preload: &'a [Op],
 }
 
 impl<'a> WordCase<'a> {
     pub fn to_json(&self, step: Option<usize>) -> Value {
-        json!({"engine": "seq", "sweep": self.sweep, "cfg": self.cfg.to_json(), "word": word_json(self.word), "word_text": show_word(self.word), "keys": self.keys, "trailing_reopens": self.trailing_reopens, "failing_step": step})
+        json!({"engine": "seq", "sweep": self.sweep, "cfg": self.cfg.to_json(), "word": word_json(self.word), "word_text": show_word(self.word), "keys": self.keys, "trailing_reopens": self.trailing_reopens, "preload": word_json(self.preload), "failing_step": step})
     }
 }
 
@@ -575,12 +584,13 @@ pub fn run_word(case: &WordCase, dir: &Path) -> WordResult {
     let oracles = case.oracles;
     let trailing = case.trailing_reopens;
     let prop = case.prop.to_string();
+    let preload = case.preload.to_vec();
     let dir = dir.to_path_buf();
     // every execution opens the store on a fresh thread so that hash seeds are a function of cfg.seed
-    std::thread::spawn(move || run_word_here(&prop, case_cfg, &word, &keys, oracles, trailing, &dir)).join().expect("word thread")
+    std::thread::spawn(move || run_word_here(&prop, case_cfg, &word, &keys, oracles, trailing, &preload, &dir)).join().expect("word thread")
 }
 
-fn run_word_here(prop: &str, cfg: Cfg, word: &[Op], keys: &[u8], o: Oracles, trailing: usize, dir: &Path) -> WordResult {
+fn run_word_here(prop: &str, cfg: Cfg, word: &[Op], keys: &[u8], o: Oracles, trailing: usize, preload: &[Op], dir: &Path) -> WordResult {
     iohook::set_seed(Some(cfg.seed));
     let root = dir.to_string_lossy().to_string();
     rmrf(dir);
@@ -597,6 +607,14 @@ fn run_word_here(prop: &str, cfg: Cfg, word: &[Op], keys: &[u8], o: Oracles, tra
             return res;
         }
     };
+    for op in preload {
+        let (got, want) = e.step(*op);
+        if got != want {
+            res.violations.push((format!("{}:preload-failed", prop), format!("{} returned {}", op.show(), got), Some(0)));
+            iohook::rec_stop();
+            return res;
+        }
+    }
     let mut before = list_dir(dir);
     let mut outcome = vec![];
     'steps: for (i, op) in word.iter().enumerate() {
@@ -861,7 +879,7 @@ fn cache_conc_grid(seed: u64, thr: Thr) -> Vec<Cfg> {
 pub fn plan(prop: &str, tier: Tier, seeds: &[u64]) -> Vec<Sweep> {
     let kv = Oracles { kv: true, ..Default::default() };
     let main_keys = vec![0u8, 1, NEVER_KEY];
-    let all_thr = [Thr::All, Thr::Dead, Thr::Size27, Thr::Frag, Thr::None];
+    let all_thr = [Thr::All, Thr::Dead, Thr::Size27, Thr::Size100, Thr::Frag, Thr::None];
     let mfss = [0u64, 60, MFS_BIG];
     let full = vec![SET_A1, SET_A22, SET_B1, DEL_A, DEL_B, Op::Merge, Op::Reopen, SET_BBIG];
     let wide_keys: Vec<u8> = vec![0, 2, 3, 4, NEVER_KEY];
@@ -885,30 +903,33 @@ pub fn plan(prop: &str, tier: Tier, seeds: &[u64]) -> Vec<Sweep> {
     };
     // quick tier of the three large word spaces: depth 5 on the configurations where rollover and
     // subset selection interact (file sizes 0 and 60; ALL, DEAD, SIZE27), depth 4 on the rest
-    let hot = core_grid(seeds, &[Thr::All, Thr::Dead, Thr::Size27], &[0, 60]);
+    let hot = core_grid(seeds, &[Thr::All, Thr::Dead, Thr::Size27, Thr::Size100], &[0, 60]);
     let mut rest = core_grid(seeds, &all_thr, &mfss);
     rest.retain(|c| !hot.contains(c));
     let mut sweeps = vec![];
     let mut deep = |name: &str, alphabet: Vec<Op>, dq: usize, dt: usize, cfgs: Vec<Cfg>, oracles: Oracles, trailing: usize| {
-        sweeps.push(Sweep { name: format!("{}-depth{}", name, dq), alphabet: alphabet.clone(), depth: dq, cfgs: cfgs.clone(), oracles, keys: main_keys.clone(), trailing_reopens: trailing });
+        sweeps.push(Sweep { name: format!("{}-depth{}", name, dq), alphabet: alphabet.clone(), depth: dq, cfgs: cfgs.clone(), oracles, keys: main_keys.clone(), trailing_reopens: trailing, preload: vec![] });
         if tier == Tier::Thorough && dt > dq {
-            sweeps.push(Sweep { name: format!("{}-depth{}", name, dt), alphabet, depth: dt, cfgs, oracles, keys: main_keys.clone(), trailing_reopens: trailing });
+            sweeps.push(Sweep { name: format!("{}-depth{}", name, dt), alphabet, depth: dt, cfgs, oracles, keys: main_keys.clone(), trailing_reopens: trailing, preload: vec![] });
         }
     };
     match prop {
         "C01" => {
             let alpha = vec![SET_A1, SET_A22, SET_B1, SET_BBIG, DEL_A, DEL_B, Op::Merge];
             deep("core", alpha.clone(), 5, 7, core_grid(seeds, &all_thr, &mfss), kv, 0);
-            sweeps.push(Sweep { name: "cache-conc".into(), alphabet: alpha, depth: tier.pick(4, 5), cfgs: cache_conc_grid(seeds[0], Thr::All), oracles: kv, keys: main_keys.clone(), trailing_reopens: 0 });
-            sweeps.push(Sweep { name: "wide".into(), alphabet: wide_ops(true, false), depth: tier.pick(2, 3), cfgs: core_grid(&seeds[..1], &[Thr::All, Thr::Dead], &[0, 60, MFS_BIG]), oracles: kv, keys: wide_keys.clone(), trailing_reopens: 0 });
+            sweeps.push(Sweep { name: "cache-conc".into(), alphabet: alpha, depth: tier.pick(4, 5), cfgs: cache_conc_grid(seeds[0], Thr::All), oracles: kv, keys: main_keys.clone(), trailing_reopens: 0, preload: vec![] });
+            sweeps.push(Sweep { name: "wide".into(), alphabet: wide_ops(true, false), depth: tier.pick(2, 3), cfgs: core_grid(&seeds[..1], &[Thr::All, Thr::Dead], &[0, 60, MFS_BIG]), oracles: kv, keys: wide_keys.clone(), trailing_reopens: 0, preload: vec![] });
         }
         "C02" => {
             let alpha = vec![SET_A1, SET_A22, SET_B1, DEL_A, DEL_B, Op::Reopen];
             let o = Oracles { kv: true, reopen_stable: true, ..Default::default() };
             deep("core", alpha, 5, 7, core_grid(&seeds[..1], &[Thr::None], &mfss), o, 3);
-            sweeps.push(Sweep { name: "wide".into(), alphabet: wide_ops(false, true), depth: tier.pick(2, 3), cfgs: core_grid(&seeds[..1], &[Thr::None], &[0, 60, MFS_BIG]), oracles: o, keys: wide_keys.clone(), trailing_reopens: 2 });
+            sweeps.push(Sweep { name: "wide".into(), alphabet: wide_ops(false, true), depth: tier.pick(2, 3), cfgs: core_grid(&seeds[..1], &[Thr::None], &[0, 60, MFS_BIG]), oracles: o, keys: wide_keys.clone(), trailing_reopens: 2, preload: vec![] });
             // > 10 files: ids must be ordered numerically, not lexicographically
-            sweeps.push(Sweep { name: "many-files".into(), alphabet: vec![SET_A1, SET_A22, DEL_A, Op::Reopen], depth: tier.pick(7, 9), cfgs: core_grid(&seeds[..1], &[Thr::None], &[0]), oracles: o, keys: main_keys.clone(), trailing_reopens: 2 });
+            sweeps.push(Sweep { name: "many-files".into(), alphabet: vec![SET_A1, SET_A22, DEL_A, Op::Reopen], depth: tier.pick(7, 9), cfgs: core_grid(&seeds[..1], &[Thr::None], &[0]), oracles: o, keys: main_keys.clone(), trailing_reopens: 2, preload: vec![] });
+            // the same from a non-initial state: 8 earlier incarnations have left ids 0..7 behind, so
+            // the words' entries land in files 8, 9, 10, 11, ... (across the 9 / 10 boundary)
+            sweeps.push(Sweep { name: "many-files-from-id-8".into(), alphabet: vec![SET_A1, SET_A22, SET_B1, DEL_A, DEL_B, Op::Reopen], depth: tier.pick(5, 6), cfgs: core_grid(&seeds[..1], &[Thr::None], &[0]), oracles: o, keys: main_keys.clone(), trailing_reopens: 2, preload: vec![Op::Reopen; 8] });
         }
         "C05" => {
             if tier == Tier::Quick {
@@ -917,8 +938,8 @@ pub fn plan(prop: &str, tier: Tier, seeds: &[u64]) -> Vec<Sweep> {
             } else {
                 deep("core", full.clone(), 5, 6, core_grid(seeds, &all_thr, &mfss), kv, 0);
             }
-            sweeps.push(Sweep { name: "cache-conc".into(), alphabet: full.clone(), depth: 4, cfgs: cache_conc_grid(seeds[0], Thr::Size27), oracles: kv, keys: main_keys.clone(), trailing_reopens: 0 });
-            sweeps.push(Sweep { name: "wide".into(), alphabet: wide_ops(true, true), depth: tier.pick(2, 3), cfgs: core_grid(&seeds[..1], &[Thr::All, Thr::Size27], &[0, 60]), oracles: kv, keys: wide_keys.clone(), trailing_reopens: 0 });
+            sweeps.push(Sweep { name: "cache-conc".into(), alphabet: full.clone(), depth: 4, cfgs: cache_conc_grid(seeds[0], Thr::Size27), oracles: kv, keys: main_keys.clone(), trailing_reopens: 0, preload: vec![] });
+            sweeps.push(Sweep { name: "wide".into(), alphabet: wide_ops(true, true), depth: tier.pick(2, 3), cfgs: core_grid(&seeds[..1], &[Thr::All, Thr::Size27], &[0, 60]), oracles: kv, keys: wide_keys.clone(), trailing_reopens: 0, preload: vec![] });
         }
         "C12" => {
             let o = Oracles { c12: true, ..Default::default() };
@@ -935,7 +956,7 @@ pub fn plan(prop: &str, tier: Tier, seeds: &[u64]) -> Vec<Sweep> {
         }
         "C14" => {
             let o = Oracles { c14: true, reopen_stable: true, ..Default::default() };
-            deep("core", full.clone(), 4, 6, core_grid(seeds, &[Thr::All, Thr::Size27, Thr::Dead], &mfss), o, 1);
+            deep("core", full.clone(), 4, 6, core_grid(seeds, &[Thr::All, Thr::Size27, Thr::Dead], &[0, 20, 60, MFS_BIG]), o, 1);
         }
         "C19" => {
             let o = Oracles { c19: true, ..Default::default() };
@@ -976,7 +997,7 @@ pub fn worker(job: &Job) -> Shard {
             }
             let cfg = sw.cfgs[(idx / nw) as usize];
             let word = sw.word(idx % nw);
-            let case = WordCase { prop: &job.prop, sweep: &sw.name, cfg, word: &word, oracles: sw.oracles, keys: &sw.keys, trailing_reopens: sw.trailing_reopens };
+            let case = WordCase { prop: &job.prop, sweep: &sw.name, cfg, word: &word, oracles: sw.oracles, keys: &sw.keys, trailing_reopens: sw.trailing_reopens, preload: &sw.preload };
             if done % 64 == 0 {
                 job.progress(&case.to_json(None));
             }
@@ -1062,7 +1083,8 @@ pub fn replay(prop: &str, case: &Value) -> Vec<Violation> {
     let keys: Vec<u8> = case["keys"].as_array().map(|a| a.iter().map(|x| x.as_u64().unwrap() as u8).collect()).unwrap_or_else(|| vec![0, 1, NEVER_KEY]);
     let trailing = case["trailing_reopens"].as_u64().unwrap_or(0) as usize;
     let dir = PathBuf::from(format!("/dev/shm/vh-replay-{}", std::process::id()));
-    let wc = WordCase { prop, sweep: "replay", cfg, word: &word, oracles: oracles_for(prop), keys: &keys, trailing_reopens: trailing };
+    let preload = case.get("preload").and_then(word_from_json).unwrap_or_default();
+    let wc = WordCase { prop, sweep: "replay", cfg, word: &word, oracles: oracles_for(prop), keys: &keys, trailing_reopens: trailing, preload: &preload };
     let r = run_word(&wc, &dir);
     rmrf(&dir);
     r.violations.into_iter().map(|(class, msg, step)| Violation { class: classify(&class, &wc, step), msg, case: wc.to_json(step) }).collect()
